@@ -264,14 +264,18 @@ def logRequest (b : Branch) (start stop : Option Nat) (forward : Bool) (levels l
 
 /-! ## per-file filtering -/
 
+/-- one step of the merge stack of `_filter_revisions_touching_path`:
+`if depth == len(stack): stack.append(info) else: del stack[depth + 1:]; stack[-1] = info` -/
+def pushStack (stack : List (Option V)) (v : V) : List (Option V) :=
+  if v.depth == stack.length then stack ++ [some v]
+  else (stack.take (v.depth + 1)).dropLast ++ [some v]
+
 /-- the merge stack of `_filter_revisions_touching_path`: `none` = already
 added to the result (or the initial placeholder) -/
 def touchLoop (modified : List Nat) (includeMerges : Bool) : List (Option V) → List V → List V
   | _, [] => []
   | stack, v :: l =>
-    let stack1 : List (Option V) :=
-      if v.depth == stack.length then stack ++ [some v]
-      else (stack.take (v.depth + 1)).dropLast ++ [some v]
+    let stack1 : List (Option V) := pushStack stack v
     if modified.contains v.rev then
       let out := stack1.filterMap fun n =>
         match n with
